@@ -79,7 +79,16 @@ def purity_history(seed, n):
     ctor_classes = [c for c in Command._commands]
     for pos in range(n):
         r = rng.random()
-        if r < 0.4:
+        if r < 0.03:
+            # back to back: an ENABLE DEVICE TYPE frame, then an application-extended opcode decoded with device type 0 --
+            # decoding is a function of its arguments, not of what was decoded just before (by this or any other caller)
+            edt = 0xC100 | rng.choice((1, 4, 5, 6, 8, 2, 7, 255))
+            ext = (rng.choice((0, 1, 63)) << 9) | 0x100 | rng.randrange(224, 256)
+            bare = rng.random() < 0.5
+            ev16.append({"key": edt, "cell": cmdrec.dec_cell(16, edt, 0, bare=bare), "pos": pos})
+            ev16.append({"key": ext, "cell": cmdrec.dec_cell(16, ext, 0, bare=not bare), "pos": pos})
+            ev16.append({"key": ext, "cell": cmdrec.dec_cell(16, ext, 0, bare=bare), "pos": pos})
+        elif r < 0.4:
             f, dt = rng.choice(pool16)
             # (with device type 0 the keyword is left out half the time: the default is 0, whatever was decoded before --
             # also when that was an ENABLE DEVICE TYPE frame)
